@@ -22,12 +22,18 @@ Cases == {[lens |-> l, strategy |-> s, seed |-> 11, epoch |-> e, pipeline |-> p,
              l \in Lens, s \in {"sequential", "interleaved", "weighted"}, w \in 1..2, ff \in {0, 3}}
 \* groups whose files contain a line that cannot be parsed (bad = keys <<file, line>>, 0-based; not for the weighted strategy,
 \* whose order cannot be predicted): the line keeps its place in the enumeration, so the ranks still share the rest
-BadCases == {[lens |-> c[1], strategy |-> s, seed |-> 11, epoch |-> 0, pipeline |-> "none", bad |-> c[2],
-              runs |-> RunsOf(w, sk, lim, ff, FALSE, 2)] :
+\* pipeline "wstask": the bad lines parse, but the whitespace-correction task fails on them (dropped behind the pipeline)
+BadCases == {[lens |-> c[1], strategy |-> s, seed |-> 11, epoch |-> 0, pipeline |-> pl, bad |-> c[2],
+              runs |-> RunsOf(w, sk, lim, ff, FALSE, 2)] : pl \in {"none", "wstask"},
                 c \in {<< <<5>>, << <<0, 0>> >> >>, << <<5>>, << <<0, 2>>, <<0, 3>> >> >>, << <<2, 4>>, << <<1, 1>> >> >>, << <<0, 3, 2>>, << <<1, 0>>, <<2, 1>> >> >>},
                 s \in {"sequential", "interleaved"}, w \in 1..3, sk \in 0..1, lim \in {0 - 1, 4}, ff \in {0, 1}}
+\* hold_ms: the worker that processed the first item is held that long (schedule hook) before it may hand it over - far
+\* beyond any patience a waiting worker or the consumer may have: the batches are still those of the reference run
+HoldRun(th, ms) == [Run(0, 1, 0, 0 - 1, 0, th, 1, FALSE, FALSE, 2, FALSE) EXCEPT !.distributed = FALSE] @@ [hold_ms |-> ms]
+HoldCases == {[lens |-> <<7>>, strategy |-> "sequential", seed |-> 11, epoch |-> 0, pipeline |-> "none",
+               runs |-> <<Run(0, 1, 0, 0 - 1, 0, 0, 1, FALSE, FALSE, 1, TRUE), HoldRun(th, 2600)>>] : th \in {2, 4}}
 VARIABLE x
 Init == x = 0 /\ ndJsonSerialize(IOEnv.OUT, SetToSeq({c \in Cases : c.strategy # "weighted" \/ \A k \in 1..Len(c.lens) : c.lens[k] > 0})
-                                                  \o SetToSeq(BadCases))
+                                                  \o SetToSeq(BadCases) \o SetToSeq(HoldCases))
 Next == UNCHANGED x
 =============================================================================
